@@ -65,3 +65,24 @@ package replicator
 //@ extern (berty.tech/go-orbit-db/stores/replicator.Replicator).Load as (r).Load(ctx, heads)
 //@   requires forall i Int :: 0 <= i && i < len(heads) ==> heads[i] != nil && ref(heads[i]) != 0
 //@   modifies *
+
+// ---- C09: the replicator's event bus ----
+// replBus(r): the bus a Replicator publishes its load events on
+//@ spec func replBus(r Iface) Iface = ptr(r, "replicator.replicator").eventBus
+//@ extern (berty.tech/go-orbit-db/stores/replicator.Replicator).EventBus as (r).EventBus() (bus)
+//@   ensures bus == replBus(r)
+//@   modifies nothing
+
+// NewReplicator: without an explicit bus the replicator creates one of its own.
+//@ func NewReplicator
+//@   props C09
+//@   flag no-safety
+//@   wraps conv@int64(concurrency)#1 conv@int64(concurrency)#2
+//@   ghost noBus := opts == nil || opts.EventBus == nil
+//@   ensures result1 == nil ==> typeis(result, "*replicator.replicator") && ref(result) != 0
+//@   ensures result1 == nil && noBus ==> freshBus(replBus(result))
+//@   modifies opts.EventBus, opts.Logger, opts.Tracer
+
+//@ func (*replicator).generateEmitter
+//@   trusted
+//@   modifies r.emitters.evtLoadEnd, r.emitters.evtLoadAdded, r.emitters.evtLoadProgress
